@@ -201,6 +201,9 @@ func B2U(b bool) uint64 {
 	return 0
 }
 func F32Bits(f float32) uint64    { return uint64(math.Float32bits(f)) }
+
+// SameF32: IEEE-equal or both NaN.
+func SameF32(a, b float32) bool { return a == b || (a != a && b != b) }
 func SameBytes(a, b []byte) bool  { return bytes.Equal(a, b) }
 func BytesID(b []byte) uint64     { return uint64(len(b)) }
 func StrID(s string) uint64       { return uint64(len(s)) }
